@@ -190,6 +190,17 @@ class C07(PropBase):
                 wl[-1]["f"]["v"] = {"$list": [{"$list": []}]}
                 steps.append({"op": "unmarshal", "t": t, "x": {"$chain": wl}, "mod": "vw0", "vdepth": d, "rejected": True})
                 continue
+            if kind == "self" and d >= 1 and not exhaust and rng.random() < 0.15:
+                # a partly built input: some levels already are instances of their class (classes do not
+                # validate what they are constructed with), all members still in wire form
+                ml = copy.deepcopy(v["$chain"])
+                for li, lv in enumerate(ml):
+                    if li == 0 or lv["tag"] == "$dict" or rng.random() < 0.5:
+                        lv["tag"] = "$dict" if (li == 0 or lv["tag"] == "$dict") else lv["tag"]
+                    for fk, fv in list(lv["f"].items()):
+                        lv["f"][fk] = gen.scalar_wire("x", fv) if not isinstance(fv, dict) or any(t_ in fv for t_ in ("$list", "$dict", "$tuple")) else _wire_scalar(fv)
+                steps.append({"op": "unmarshal_mixed", "t": t, "x": {"$chain": ml}, "v": v, "mod": "vw0", "vdepth": d})
+                continue
             if kind == "wrap":
                 v, w = self._wrap_value(shape, v, w)
             step = {"op": "roundtrip", "t": t, "v": v, "mod": "vw0", "vdepth": d + (1 if kind == "wrap" and shape in ("list", "dict", "tuplevar") else 0)}
@@ -210,6 +221,15 @@ class C07(PropBase):
                         step = {"op": "unmarshal", "t": t, "x": {"$chain": wl}, "mod": "vw0", "vdepth": d, "exhaust": True, "rejected": True}
             steps.append(step)
         return {"prop": self.ID, "seed": seed, "tier": tier, "world": world, "env": env, "steps": steps_with_ids(steps), "meta": {"swarm": sw, "limit": limit}}
+
+    def exec_op(self, sess, i, step):
+        if step["op"] != "unmarshal_mixed":
+            return None
+        import typelib
+
+        x = sess.V(step["x"])
+        sess.inputs[step.get("id", i)] = x
+        return sess.guarded(sess.call, step, typelib.unmarshal, sess.T(step), x)
 
     def _root_t(self, base, shape, kind):
         if kind == "self":
@@ -258,6 +278,17 @@ class C07(PropBase):
                     sess.faults["reject_deep"] += 1
                     sess.probes["rejection_unwound_through_proxies"] += 1
                 sess.fault_fired_before = True
+            return
+        if step["op"] == "unmarshal_mixed":
+            if not out.ok:
+                if not isinstance(out.exc, RecursionError):
+                    sess.violation("recursive-roundtrip-raised", i, {"t": model.tsrc(step["t"]), "depth": step.get("vdepth"), "stage": "unmarshal of a partly built input",
+                                                                       "exc": f"{type(out.exc).__name__}: {out.exc}"[:200]}, sig=f"mixed-input-raised:{type(out.exc).__name__}")
+                return
+            want = sess.V(step["v"])
+            if not model.same(out.value, want):
+                sess.violation("level-passed-through-raw", i, {"t": model.tsrc(step["t"]), "depth": step.get("vdepth"), "got": repr(out.value)[:240], "want": repr(want)[:240]},
+                               sig="level-passed-through-raw")
             return
         if step["op"] == "retry_repaired":
             first, second = sess.retry
